@@ -64,6 +64,7 @@ macro_rules! impl_scalar_traits {
             #[inline] fn zero() -> $T { <$T as $crate::scalar::Mon>::m_int(0) }
             #[inline] fn is_zero(&self) -> bool { $crate::scalar::Mon::m_eq(*self, <$T as $crate::scalar::Mon>::m_int(0)) }
         }
+        impl Default for $T { #[inline] fn default() -> $T { <$T as $crate::scalar::Mon>::m_int(0) } }
         impl ::num_traits::One for $T { #[inline] fn one() -> $T { <$T as $crate::scalar::Mon>::m_int(1) } }
         impl ::num_traits::Num for $T {
             type FromStrRadixErr = ();
